@@ -247,7 +247,7 @@ func (web *whereExpFuncBuilder) buildMsgCond(cn *Condition) (err error) {
 		}
 	case CMP_LIKE:
 		// test it first
-		_, err := path.Match(cn.Value, "abc")
+		_, err = path.Match(cn.Value, "abc")
 		if err != nil {
 			err = fmt.Errorf("wrong 'like' expression for %s, err=%s", cn.Value, err.Error())
 		} else {
@@ -287,7 +287,7 @@ func (web *whereExpFuncBuilder) buildFldCond(cn *Condition, fldName string) (err
 		}
 	case CMP_LIKE:
 		// test it first
-		_, err := path.Match(cn.Value, "abc")
+		_, err = path.Match(cn.Value, "abc")
 		if err != nil {
 			err = fmt.Errorf("uncompilable 'like' expression for \"%s\", expected a shell pattern (not regexp) err=%s", val, err.Error())
 		} else {
